@@ -158,7 +158,7 @@ CTX = [
     ("table-align", JS, ["a|b\n:-|-:\n1|", {"v": "a"}, "\n"]), ("labels", JSX, ["[a]: /x 't'\n\n[x][a] ![i][a] z", {"v": "a"}, "\n"]),
     ("fence-info", JS, ["```", {"v": "a"}, " b\nc\n```\n"]), ("emph-link", JS, ["*[t](u)* `", {"v": "a"}, "` <b>\n"]),
     ("html-on", CM, ["<div>\n", {"v": "a"}, "</div>\n\nx <i>y</i>\n"]), ("hard-soft", JS, ["a  \nb\n", {"v": "a"}, "\n"]),
-    ("tight-loose", JS, ["- a\n- ", {"v": "a"}, "\n\n  b\n"]),
+    ("tight-loose", JS, ["- a\n- ", {"v": "a"}, "\n\n  b\n"]), ("equal-siblings", JS, ["a\nb\n", {"v": "a"}, "\n\n*e* *e* `c` `c`\n\n---\n\n---\n"]),
 ]
 
 
